@@ -123,6 +123,50 @@ func init() {
 				}}
 		}
 	}
+	// two followers cut off together (they still reach each other)
+	regScenario("prevote5-pair", func() *Scenario {
+		return &Scenario{Nodes: voters(5), Timed: true, Devs: DevStepEarly, Horizon: 9000,
+			Goal: func(w *World) bool { return w.vals["healed"] == 1 && w.now() >= w.tvals["heal"]+500*time.Millisecond },
+			Steps: []Step{
+				stepDo("set-extras", nil, func(w *World) { setExtras(w, []int{0, 2, 1, 4, 3}) }),
+				earlyStep("isolate-pair", func(w *World) bool { return w.now() >= 1*time.Second && w.stableLeader() != nil }, func(w *World) {
+					l := w.leader()
+					if l == nil {
+						panic("no leader")
+					}
+					var pair []*Node
+					for _, o := range w.nodes {
+						if o != l && o.up && len(pair) < 2 {
+							pair = append(pair, o)
+						}
+					}
+					for _, p := range pair {
+						for _, o := range w.nodes {
+							if o != pair[0] && o != pair[1] {
+								w.cut(p.id, o.id, true)
+							}
+						}
+					}
+					w.vals["victim"] = pair[0].id
+					w.vals["victim2"] = pair[1].id
+					w.tvals["iso"] = w.now()
+					w.vals["isolated"] = 1
+					w.mon.prevoteIsolated(pair[0])
+					w.mon.prevote2 = &prevoteState{node: pair[1].id, inc: pair[1].inc, term: pair[1].r.CurrentTerm(), leader: -1}
+				}),
+				stepDo("heal", func(w *World) bool { return w.vals["isolated"] == 1 && w.now() >= w.tvals["iso"]+8*tElection }, func(w *World) {
+					for k := range w.blocked {
+						delete(w.blocked, k)
+					}
+					w.vals["healed"] = 1
+					w.tvals["heal"] = w.now()
+					w.mon.prevoteHealed()
+					if w.mon.prevote2 != nil {
+						w.mon.prevote2.healed = true
+					}
+				}),
+			}}
+	})
 	regScenario("prevote3-1", mkPrevote(3, false, 1*tElection+50*time.Millisecond, false))
 	regScenario("prevote3-5", mkPrevote(3, false, 5*tElection, false))
 	regScenario("prevote3-20", mkPrevote(3, false, 20*tElection, false))
@@ -192,7 +236,10 @@ func (m *Monitors) timedChecks() {
 			}
 		}
 	}
-	if ps := m.prevote; ps != nil {
+	for _, ps := range []*prevoteState{m.prevote, m.prevote2} {
+		if ps == nil {
+			continue
+		}
 		n := w.nodes[ps.node]
 		if n.up && n.inc == ps.inc && n.r != nil {
 			if !ps.healed {
